@@ -72,6 +72,18 @@ def gen_case(rng, tier):
             ]))
         case["final"] = f
     case["restriction"] = restr
+    if rng.random() < 0.08:
+        # a join identity that travelled through one or two transfers, joined to a relation that
+        # lives in any of the engines (the join-identity short-cut meets backtracking)
+        A, B, C3 = rng.sample(c03.ENG, 3)
+        case["leaves"]["LI"] = {"engine": A, "cols": [], "rows": [[]], "kind": "identity"}
+        prog = ["xfer", ["leaf", "LI"], B]
+        if rng.random() < 0.4:
+            prog = ["xfer", prog, C3]
+        fe = rng.choice(c03.ENG)
+        case["leaves"]["LF"] = {"engine": fe, "cols": ["a"], "rows": [[1], [2]], "kind": "normal", "min": 2, "max": 2}
+        case.update(prog=prog, cols=[], engine=prog[2], restriction=None,
+                    final={"kind": "join", "fixed": ["leaf", "LF"], "pred": None, "fixed_engine": fe, "is_lhs": rng.random() < 0.3})
     return case
 
 
@@ -124,11 +136,20 @@ def run_case(case):
             combos = [None] + [{"pe": f["fixed_engine"], "bt": bt, "tr": tr, "rq": False} for bt in (True, False) for tr in (False, True)]
         else:
             combos = [None] + [{"pe": pe, "bt": bt, "tr": tr, "rq": rq} for pe, bt, tr, rq in itertools.product(c03.ENG, (True, False), (False, True), (False, True))]
-        for opt in combos:
+        explicit_join = []
+        if f["kind"] == "join":
+            # the operation-object route with an explicit preferred engine (any of the three)
+            explicit_join = [{"pe": pe, "bt": bt, "tr": tr, "rq": rq, "explicit": True} for pe, bt, tr, rq in itertools.product(c03.ENG, (True, False), (False, True), (False, True))]
+        for opt in combos + explicit_join:
             if restricted:
                 c["restricted_requests"] = c.get("restricted_requests", 0) + 1
             try:
-                res = c03.apply_final(case, base, b, engines, opt)
+                if opt and opt.get("explicit"):
+                    fixed_rel = b.build(f["fixed"])
+                    pj = b.plib(f["pred"]) if f["pred"] is not None else R.Predicate.literal(True)
+                    res = R.Join(pj).partial(fixed_rel, is_lhs=bool(f.get("is_lhs"))).apply(base, **opt_kwargs({k: v for k, v in opt.items() if k != "explicit"}, engines))
+                else:
+                    res = c03.apply_final(case, base, b, engines, opt)
             except (R.EngineError, R.ColumnError):
                 c["engine_errors"] = c.get("engine_errors", 0) + 1
                 outcome = "raised"
